@@ -125,6 +125,9 @@ def parseOp (n : Names) : Nat → List String → Option (Op × List String)
       -- a message with spaces: words up to the closing parenthesis
       let ws := rest.takeWhile (· != ")")
       some (.raise (" ".intercalate ws), rest.dropWhile (· != ")"))
+    | "craise" :: rest =>
+      let ws := rest.takeWhile (· != ")")
+      some (.craise (" ".intercalate ws), rest.dropWhile (· != ")"))
     | "throw" :: t :: rest => some (.throw_ t, rest)
     | "limit" :: rest => some (.raiseLimit, rest)
     | "load" :: rest => body rest .load
